@@ -777,10 +777,18 @@ Definition c02_swept (t : trans) : bool :=
     denoms) roles) (ids_upto (st_aseq (t_post t) + 2)).
 Definition c02_all (t : trans) : bool := c02_ok t && c02_swept t.
 
+(* C08, state level: an auction is in the vesting status only while its last instalment is unreleased
+   ("finishes when its last vesting instalment is released") *)
+Definition pending_ok (s : state) : bool :=
+  forallb (fun a => if status_eqb (a_status a) VestingS
+                    then match rev (vqs_of s (a_id a)) with v :: _ => negb (v_released v) | [] => false end
+                    else true) (st_auctions s).
+Definition c08_all (t : trans) : bool := c08_ok t && pending_ok (t_post t).
+
 (* ---------------------------------------------------------------- all of them *)
 Definition all_checks : list (N * (trans -> bool)) :=
   [(1%N, c01_ok); (2%N, c02_all); (3%N, c03_ok); (4%N, c04_ok); (5%N, c05_ok); (6%N, c06_ok); (7%N, c07_ok);
-   (8%N, c08_ok); (9%N, c09_ok); (10%N, c10_ok); (11%N, c11_ok); (12%N, c12_ok); (13%N, c13_ok);
+   (8%N, c08_all); (9%N, c09_ok); (10%N, c10_ok); (11%N, c11_ok); (12%N, c12_ok); (13%N, c13_ok);
    (15%N, c15_ok); (16%N, c16_ok); (17%N, c17_ok); (18%N, c18_ok); (19%N, c19_ok)].
 Definition failing (t : trans) : list N :=
   map fst (filter (fun c => negb (snd c t)) all_checks).
